@@ -665,3 +665,13 @@ SWEEP = ["reusable/test_vector.cpp",
          "reusable/test_manager.cpp",
          "reusable/test_traits.cpp",
          "reusable/test_message.cpp"]
+
+
+# name anchors (validated by tools/rename_sweep.py; a vanished name is exit 2, see core.check_anchor_names)
+ANCHORS = {
+    'accessor': ['^babylon::ReusableManager(<|$)'],
+    'construct_with_allocation_metadata': ['^babylon::BasicReusableTraits(<|$)', '^babylon::ReusableTraits(<|$)'],
+    'recreate': ['^babylon::ReusableManager(<|$)'],
+    'stable_reserve': ['^babylon(<|$)'],
+    'update': ['^babylon::MessageAllocationMetadata(<|$)', '^babylon::MessageAllocationMetadata::FieldAllocationMetadata(<|$)', '^babylon::ReusableManager(<|$)'],
+}
